@@ -108,7 +108,11 @@ def run_check(pid, tier, seed=None, procs=None):
         print(canon(cases[i])[:1500])
         print(r["harness_error"])
         print(r.get("traceback", ""))
-        return 2
+        if not any(r2.get("violations") for r2 in results if "harness_error" not in r2):
+            return 2
+        # other cases did find violations: report them (exit 1) rather than hiding them behind the harness error
+        for i, r in herr:
+            results[i] = {"violations": [], "cov": {"harness_errors": 1}, "outcome": "harness_error", "nontrivial": False}
 
     # cross-case (relational) oracles evaluated in the parent
     extra_cov = {}
